@@ -79,7 +79,7 @@ Lemma flush_as_runs l P cur R : l = (P ++ rev cur ++ R)%list ->
   flush cur = map (fun p => string_of_list_ascii (slice l (fst p) (snd p))) (flush_runs P cur).
 Proof.
   intros Hl. unfold flush, flush_runs. destruct (2 <=? List.length cur)%nat; auto. simpl.
-  rewrite Hl. rewrite <- (rev_length cur) at 2. rewrite slice_block. reflexivity.
+  rewrite Hl. rewrite <- (rev_length cur). rewrite slice_block. reflexivity.
 Qed.
 
 Definition token_at (l : list ascii) (p : nat * nat) : string := string_of_list_ascii (slice l (fst p) (snd p)).
@@ -104,7 +104,7 @@ Proof.
     + intros i n. unfold flush_runs. rewrite rev_length in *.
       destruct (Nat.leb_spec 2 (List.length cur)) as [L|L]; simpl.
       * split.
-        -- intros [H|[]]. inversion H; subst. repeat split; auto; try lia. apply B1. lia.
+        -- intros [H|[]]. inversion H; subst i n. split; [apply B1; lia | split; lia].
         -- intros (Hm & Hn & Hi). destruct (B2 i n Hm Hi) as [[-> ->]|Hb]; auto.
            exfalso. destruct Hm as (_ & Hlen & _). rewrite Hl, !app_length, rev_length in Hlen. simpl in Hlen. lia.
       * split; [tauto|]. intros (Hm & Hn & Hi). destruct (B2 i n Hm Hi) as [[-> ->]|Hb]; [lia|].
@@ -138,11 +138,11 @@ Proof.
         destruct (Nat.leb_spec 2 (List.length cur)) as [L|L]; simpl.
         -- split.
            ++ intros [[H|[]]|(Hm & Hn & Hi)].
-              ** inversion H; subst. repeat split; auto; try lia. apply B1. lia.
-              ** repeat split; auto. lia.
+              ** inversion H; subst i n. split; [apply B1; lia | split; lia].
+              ** split; [exact Hm | split; lia].
            ++ intros (Hm & Hn & Hi). destruct (B2 i n Hm Hi) as [[-> ->]|Hb]; auto.
         -- split.
-           ++ intros [[]|(Hm & Hn & Hi)]. repeat split; auto. lia.
+           ++ intros [[]|(Hm & Hn & Hi)]. split; [exact Hm | split; lia].
            ++ intros (Hm & Hn & Hi). destruct (B2 i n Hm Hi) as [[-> ->]|Hb]; [lia|]. right. auto.
       * unfold flush_runs. destruct (2 <=? List.length cur)%nat; simpl; auto.
         constructor; auto. apply Forall_forall. intros [i n] Hq. apply T2 in Hq.
